@@ -43,6 +43,10 @@ func (core *JApiCore) ExpandRawPathVariableShortcuts() *jerr.JApiError {
 				return r.pathDirective.KeywordError(fmt.Sprintf(`User type "%s" not found`, typeName))
 			}
 
+			if ut.Schema.Notation != notation.SchemaNotationJSight {
+				return r.pathDirective.KeywordError("the body of the Path DIRECTIVE must be an object")
+			}
+
 			r.schema = ut.Schema // copy schema
 		}
 
